@@ -219,6 +219,89 @@ def rust_cmd(case):
             "probes": [{"key": k, "text": text(b)} for k, b in sorted(probes.items())]}
 
 
+# ------------------------------------------------------------------ model side
+def op_sx(op):
+    k = op["op"]
+    if k in ("add", "add_template"):
+        b = with_id(dict(op["body"], annotations=sorted(op["body"]["annotations"])), op["id"])
+        name = "addvia" if (k == "add" and op.get("via") == "add") else k
+        return [Sym(name), cedar.template_sx(b)]
+    if k == "link":
+        return [Sym("link"), Str(op["template"]), Str(op["id"]), cedar.slots_sx(op["env"])]
+    if k == "add_stashed":
+        return [Sym("add_stashed"), op["k"]]
+    if k == "merge":
+        return [Sym("merge"), Sym("true" if op["rename"] else "false"), [op_sx(o) for o in op["other"]]]
+    return [Sym(k), Str(op["id"])]
+
+
+def model_cmd(case):
+    w = case["world"]
+    return [Sym("pset_history"), Sym(case["level"]), cedar.entities_sx(w.entities),
+            [cedar.request_sx(q) for q in case["requests"]], [op_sx(o) for o in case["ops"]]]
+
+
+def sx_uid(s):
+    return [tuple(x.text() for x in s[1]), s[2].text()]
+
+
+def canon_model_step(s, level):
+    def pol(e):
+        return (e[0].text(), e[1].text(), str(e[2]) == "true", e[3].text(),
+                tuple(sorted((str(x[0]), tuple(sx_uid(x[1]))) for x in e[4])), str(e[5]),
+                tuple(sorted((a[0].text(), a[1].text()) for a in e[6])))
+
+    def tpl(e):
+        return (e[0].text(), e[1].text(), tuple(sorted(str(x) for x in e[2])), str(e[3]),
+                tuple(sorted((a[0].text(), a[1].text()) for a in e[4])))
+    out = {"result": str(s[1]), "renaming": tuple(sorted((a[0].text(), a[1].text()) for a in s[2])),
+           "ast_links": tuple(sorted(pol(e) for e in s[5])), "ast_templates": tuple(sorted(tpl(e) for e in s[6])),
+           "t2l": tuple(sorted((e[0].text(), tuple(sorted(x.text() for x in e[1]))) for e in s[7])),
+           "responses": tuple((str(r[1]), tuple(sorted(x.text() for x in r[2])), tuple(sorted(ie[0].text() for ie in r[3])))
+                              for r in s[8])}
+    if level == "api":
+        out["api_policies"] = tuple(sorted(pol(e) for e in s[3]))
+        out["api_templates"] = tuple(sorted(tpl(e) for e in s[4]))
+    return out
+
+
+def canon_rust_step(st, level):
+    def uidt(j):
+        u = uid_of_json(j)
+        return (tuple(u[1]), u[2])
+
+    def pol(p, api):
+        tid = p["template"] if not (api and p["static"]) else p["id"]
+        return (p["id"], p["id"], p["static"], tid, tuple(sorted((s, uidt(u)) for s, u in p["env"])), p["effect"],
+                tuple(sorted(tuple(a) for a in p["annotations"])))
+
+    def tpl(t):
+        return (t["id"], t["id"], tuple(sorted(t["slots"])), t["effect"], tuple(sorted(tuple(a) for a in t["annotations"])))
+    out = {"result": st["result"], "renaming": tuple(sorted(tuple(x) for x in (st["renaming"] or []))),
+           "ast_links": tuple(sorted(pol(p, False) for p in st["ast"]["links"])),
+           "ast_templates": tuple(sorted(tpl(t) for t in st["ast"]["templates"])),
+           "t2l": tuple(sorted((x[0], tuple(sorted(x[1]))) for x in st["ast"]["t2l"])),
+           "responses": tuple((r[0], tuple(r[1]), tuple(r[2])) for r in st["responses"])}
+    if level == "api":
+        out["api_policies"] = tuple(sorted(pol(p, True) for p in st["api"]["policies"]))
+        out["api_templates"] = tuple(sorted(tpl(t) for t in st["api"]["templates"]))
+    return out
+
+
+def correspondence(case, res, ms):
+    """first difference between the model's and the implementation's step records, or None"""
+    if "steps" not in res:
+        return "implementation did not run: %r" % (res,)
+    if not isinstance(ms, list) or len(ms) != len(res["steps"]):
+        return "model did not run: %r" % (ms if not isinstance(ms, list) else len(ms),)
+    for n, (st, m) in enumerate(zip(res["steps"], ms)):
+        r, mm = canon_rust_step(st, case["level"]), canon_model_step(m, case["level"])
+        for k in r:
+            if r[k] != mm[k]:
+                return "op %d (%s): %s differs: implementation %r, model %r" % (n, case["ops"][n]["op"], k, r[k], mm[k])
+    return None
+
+
 # ------------------------------------------------------------------ the abstract state (oracle)
 class Abs:
     """finite map id -> ("static", body) | ("template", body) | ("link", tid, env(sorted tuple), template body)"""
@@ -568,16 +651,20 @@ def run(rep, tier, seed):
     if THEOREMS:
         ob, dis, details, failures = fw.check_props(PROP_FILE, THEOREMS)
     harness = fw.build_harness()
+    driver = fw.build_model_driver()
     rng = random.Random(seed)
     n_api = 700 if tier == "quick" else 12000
     n_ast = 400 if tier == "quick" else 8000
     cases = [gen_case(rng, "api") for _ in range(n_api)] + [gen_case(rng, "ast") for _ in range(n_ast)]
     rcmds = [rust_cmd(c) for c in cases]
     rres = fw.run_rust(harness, rcmds)
+    mcmds = [model_cmd(c) for c in cases]
+    mres = fw.run_model(driver, mcmds)
+    ncorr = 0
     agg = {"ok": 0, "err": {}, "ops": {}, "links_live": 0, "merge_renamed": 0, "untracked_tail": 0}
     distinct = set()
     nviol = 0
-    for c, r in zip(cases, rres):
+    for ci, (c, r) in enumerate(zip(cases, rres)):
         bad, st = check_case(c, r)
         for k in ("ok", "links_live", "merge_renamed"):
             agg[k] += st[k]
@@ -590,8 +677,19 @@ def run(rep, tier, seed):
             rr = fw.run_rust(harness, [rust_cmd(small)])[0]
             rep.violation({"property": PROP, "kind": "policy-set history violates the property (oracle on the implementation)",
                            "what": check_case(small, rr)[0], "case": describe(small), "rust": rr})
+        diff = correspondence(c, r, mres[cases.index(c)] if False else mres[ci])
+        if diff and not bad and ncorr < 3:
+            ncorr += 1
+            small = shrink(c, harness, lambda cc, rr: correspondence(cc, rr, fw.run_model(driver, [model_cmd(cc)])[0]) is not None)
+            rr = fw.run_rust(harness, [rust_cmd(small)])[0]
+            rep.violation({"property": PROP, "kind": "implementation differs from the model (correspondence)",
+                           "model function": "PolicySet.api_step / ast_step (coq/model/PolicySet.v)",
+                           "rust entry point": "cedar_policy::PolicySet / ast::PolicySet operations via harness pset_history",
+                           "what": correspondence(small, rr, fw.run_model(driver, [model_cmd(small)])[0]),
+                           "theorems whose transfer is lost": THEOREMS, "case": describe(small)}, no_failing_input=True)
         if st["ok"] >= 3 and st["err"]:
             distinct.add(fw.case_hash(rcmds[len(distinct) % len(rcmds)] if False else describe(c)))
+    nx = fw.coq_crosscheck(mcmds[:12], mres[:12], PROP)
     for f in failures:
         rep.violation({"property": PROP, "kind": "proof obligation no longer checks", "detail": f}, no_failing_input=True)
     nsteps = sum(len(c["ops"]) for c in cases)
@@ -601,7 +699,7 @@ def run(rep, tier, seed):
         "trusted_base": fw.TRUSTED_BASE, "theorems": details,
         "evaluations": nsteps, "distinct_nontrivial": len(distinct),
         "rule": "%d API-level and %d core-level histories of 6-18 operations over the id pool %r (merge arguments are 1-6 operation sub-histories); after every operation the full public view is dumped and 3 requests are authorized; non-trivial = at least 3 successful and 1 failed operation" % (n_api, n_ast, POOL),
-        "traces_validated_against_impl": len(cases),
+        "traces_validated_against_impl": len(cases), "vm_compute_crosscheck_cases": nx,
         "operation_histogram": agg["ops"], "ok_operations": agg["ok"], "error_histogram": agg["err"],
         "live_links_observed": agg["links_live"], "ids_renamed_by_merge": agg["merge_renamed"],
         "samples": [describe(cases[0])],
